@@ -108,6 +108,8 @@ class Module(object):
     def contract(self, qual, params, **kw):
         c = Contract(qual, params, **kw)
         c.module = self
+        if any('fresh(' in t for t in c.ensures.values()) or any(m.startswith('fresh:') for m in c.modifies):
+            c.ghost.setdefault('allocates', True)       # a contract that speaks of fresh objects allocates
         self.contracts[qual] = c
         return c
 
